@@ -203,8 +203,11 @@ func space(thorough bool) ([]*block, bound) {
 	rec := []string{limRecursive}
 	// nested: the inner archive's destination is <dir of the nested file>/<its stem>; ".zip" and ".jar" have an empty
 	// stem, so the innermost destination is the top-level destination again (one parent reference away from outside).
-	outers1 := [][]string{{"x.zip"}, {"a/x.zip"}, {".zip"}}
-	outers2 := [][]string{{"x.zip", "x.zip"}, {".zip", ".jar"}}
+	// "...zip" has the stem "..": the inner archive would be extracted into the PARENT of the directory the nested
+	// file is in; "..zip" has the stem "." (added after an independently seeded review found that the element-wise
+	// parent-reference test no longer refuses such names).
+	outers1 := [][]string{{"x.zip"}, {"a/x.zip"}, {".zip"}, {"...zip"}, {"a/...zip"}, {"..zip"}}
+	outers2 := [][]string{{"x.zip", "x.zip"}, {".zip", ".jar"}, {"x.zip", "...zip"}, {"...zip", "...jar"}}
 	for _, o := range append(append([][]string{}, outers1...), outers2...) {
 		bd.NestedOuters = append(bd.NestedOuters, strings.Join(o, " > "))
 	}
